@@ -24,7 +24,38 @@ def put_on_fs(b, fsname, tag):
         return "memory://" + root
     if fsname == "vtrace":
         return tracefs.put_product(f"p{os.getpid()}_{tag}", b.files)
+    if fsname == "local%":   # a directory name with characters that mean something to string formatting / URL quoting
+        return b.write(os.path.join(checklib.fresh_dir("prod_"), "ALOS2%20data 100%d", "50%_done"))
+    if fsname in ("zip", "tar"):   # the product as a folder inside an archive, opened through fsspec's chained URLs
+        stage = b.write(os.path.join(checklib.fresh_dir("arch_"), "stage", "prod"))
+        return _pack(stage, fsname)
     raise ValueError(fsname)
+
+
+def _pack(stage, kind):
+    """(re)build the archive next to the staging directory -> chained url"""
+    base = os.path.dirname(os.path.dirname(stage))
+    arc = os.path.join(base, "product." + kind)
+    if os.path.exists(arc):
+        os.remove(arc)
+    names = sorted(os.listdir(stage))
+    if kind == "zip":
+        import zipfile
+
+        with zipfile.ZipFile(arc, "w") as z:
+            for n in names:
+                z.write(os.path.join(stage, n), f"prod/{n}")
+    else:
+        import tarfile
+
+        with tarfile.open(arc, "w") as t:
+            for n in names:
+                t.add(os.path.join(stage, n), f"prod/{n}")
+    return f"{kind}://prod::{arc}"
+
+
+def _stage_of(url):
+    return os.path.join(os.path.dirname(url.split("::", 1)[1]), "stage", "prod")
 
 
 def drop_from_fs(url, fsname):
@@ -38,6 +69,10 @@ def drop_from_fs(url, fsname):
             pass
     elif fsname == "vtrace":
         tracefs.remove(url)
+    elif fsname in ("zip", "tar"):
+        import shutil
+
+        shutil.rmtree(os.path.dirname(url.split("::", 1)[1]), ignore_errors=True)
     else:
         import shutil
 
@@ -50,13 +85,19 @@ def apply_fault(url, fsname, name, kind, cut):
             tracefs.remove(url, name)
         else:
             tracefs.set_fault_len(url, name, cut)
-    elif fsname in ("local", "file"):
-        p = os.path.join(url.replace("file://", ""), name)
+    elif fsname in ("local", "file", "local%", "zip", "tar"):
+        d = _stage_of(url) if fsname in ("zip", "tar") else url.replace("file://", "")
+        p = os.path.join(d, name)
         if kind == "missing":
             os.remove(p)
         else:
             with open(p, "r+b") as f:
                 f.truncate(cut)
+        if fsname in ("zip", "tar"):
+            import fsspec
+
+            _pack(d, fsname)
+            fsspec.filesystem(fsname, fo=url.split("::", 1)[1]).clear_instance_cache()
     elif fsname == "memory":
         import fsspec
 
